@@ -415,11 +415,11 @@ def s_cases(rng, thorough):
              ("full-width-names", [ent(4, 2), ent(2, 0), ent(3, 0), ent(5, 1)], 2)]
     out = []
     for label, tbl, v in fixed:
-        out.append((label, tbl, v, 8, 1500 if thorough else 400))
+        out.append((label, tbl, v, 8, 8000 if thorough else 2000))
     for j in range(8 if thorough else 2):
         idx = rng.sample(range(len(H_NAMES)), rng.randrange(2, 7))
         tbl = [ent(i, rng.randrange(len(H_CLASSES))) for i in idx]
-        out.append(("random/%d" % j, tbl, rng.choice([1, 1, 3, -1]), rng.choice([2, 4, 8, 16]), 1500 if thorough else 400))
+        out.append(("random/%d" % j, tbl, rng.choice([1, 1, 3, -1]), rng.choice([2, 4, 8, 16]), 8000 if thorough else 2000))
     return out
 
 
@@ -1040,9 +1040,14 @@ def main():
                   "prefixes of 11 and 12 bytes, by-name / by-class / auto-complete listing walks in both directions; "
                   "histories (op 8, one scenario per case line, fresh shared memory and no .BRD): 8 first-time / error paths of loading x PRNG(seed) creations "
                   "(AppendRecord + AddbrdTouchCache, bbs.CreateBoard) x final reload, every number the driver prints after every operation predicted by the reference; "
+                  "stalled writer (op 12): fixed tables + PRNG(seed) tables of 2..6 boards, flag values 1, 2, 3, -1, 2..16 goroutines; "
                   "non-trivial = distinct (table, operation, query) that returned" % (NALL, POOL, NMAX, WCLASSES, WIDE),
-             assumptions=["the table is quiescent during lookups (BBusyState sleep-and-proceed is not a lock and is not modelled); that no busy flag is left set after "
-                          "an operation returns is checked after every operation of every history",
+             assumptions=["no writer is in the MIDDLE of rewriting the table during lookups (BBusyState sleep-and-proceed is not a lock); a busy flag that stays set over a whole table "
+                          "- a writer stopped right after setting it, or a killed writer's flag left in the shared memory - is exercised by op 12 and modelled (stall / waited: theorem "
+                          "C11_lookups_under_a_stalled_writer is about the model's reader, the code's reader is tied to it by correspondence and the scan predicate); that no busy flag is "
+                          "left set after an operation returns is checked after every operation of every history",
+                          "several goroutines of one process doing lookups at once (phase C of op 12) is validation by a stress run of 2..16 goroutines, not a theorem: the executable model "
+                          "has no parallelism; a race that needs more overlapping calls than the run makes is not excluded",
                           "histories keep the cache coherent with the board file: a file put in place by the harness is followed by ReloadBCache; deleting .BRD under a loaded "
                           "cache (the old table stays) and refused creations are not exercised; history tables are twin-free with at most one vacated slot, so that "
                           "every output is determined",
